@@ -30,6 +30,8 @@ type ReplayFile struct {
 	Note       string `json:"note"`
 }
 
+var overlayTimeout = 180 * time.Second
+
 func goEnv() []string {
 	return append(os.Environ(), "GOFLAGS=-mod=mod", "GOPROXY=off", "GOSUMDB=off", "GOTOOLCHAIN=local")
 }
@@ -48,7 +50,7 @@ func runOverlayTest(pkgDir, testSrc, runRe, wd string, extra ...string) (map[str
 	ovb, _ := json.Marshal(ov)
 	ovf := filepath.Join(wd, fmt.Sprintf("ov_%d_%s.json", os.Getpid(), sanitize(pkgDir)))
 	os.WriteFile(ovf, ovb, 0o644)
-	ctx, cancel := context.WithTimeout(context.Background(), 180*time.Second)
+	ctx, cancel := context.WithTimeout(context.Background(), overlayTimeout)
 	defer cancel()
 	pkgArg := "./" + pkgDir
 	args := []string{"test", "-overlay", ovf, "-vet=off", "-count=1", "-timeout", "60s", "-run", runRe, "-json"}
